@@ -1100,3 +1100,40 @@ Proof.
   pose proof (fixed_wrap_free c s Hf Hr). pose proof (fixed_no_zero c s Hf Hr).
   split; [apply worker_not_blocked|apply producer_not_blocked]; assumption.
 Qed.
+
+(* ------------------------------------------------------------------ statements about the current code (fixed c = true) *)
+Lemma thm_counter_inv_current : forall c s, wf c -> fixed c = true -> reachable c s ->
+  wrapped s = false /\ rem s < W /\
+  rem s + qsum (msgs s) + hand (work s) + qsum (sent s) + pdrop (prod s) + g_left s
+  = qsize c + ppend (prod s).
+Proof.
+  intros c s Hwf Hf Hr. destruct (finv_reach c s Hf Hr) as [F1 _].
+  split; [exact F1|]. split; [destruct (sinv_reach c s Hwf Hr) as [H _]; exact H|].
+  exact (einv_reach c s Hwf Hr F1).
+Qed.
+
+Lemma thm_monitor_probe_sound_current : forall c s pos peek,
+  wf c -> fixed c = true -> reachable c s -> ppend (prod s) = 0 ->
+  probe_bound_ok (qsize c) (probe_of s pos peek) = true.
+Proof.
+  intros c s pos peek Hwf Hf Hr Hp. apply probe_bound_sound; try assumption.
+  apply fixed_wrap_free; assumption.
+Qed.
+
+Lemma thm_shutdown_bounded_current : forall c s,
+  wf c -> fixed c = true -> app_sd_callable c = false -> reachable c s ->
+  crashed s = false /\ worker_blocked c s = false /\ producer_blocked c s = false /\
+  (prod s = PWait ->
+   exists tr s', steps c s tr s' /\ prod s' = PIdle /\ Forall producer_own tr /\
+                 (length tr <= 3 + length (msgs s))%nat).
+Proof.
+  intros c s Hwf Hf Ha Hr. destruct (thm_shutdown_bounded_fixed c s Hwf Hf Ha Hr) as (H1 & H2 & H3).
+  repeat split; try assumption. apply shutdown_returns.
+Qed.
+
+(* latent: with a caller of closeInitiateAppShutdown the current code's emptyQueue can block as well *)
+Definition c_appsd_cur : cfg := {| qsize := 1; fixed := true; app_sd_callable := true |}.
+Lemma supp_block_latent_current :
+  exists tr s, steps c_appsd_cur (init c_appsd_cur) tr s /\
+               producer_blocked c_appsd_cur s = true /\ all_counts_in 1 1 tr = true.
+Proof. witness tr_appsd. vm_compute. split; reflexivity. Qed.
